@@ -241,7 +241,9 @@ def gen_modproc_script(rng, stats):
     s += ["coord_write 1 1 4 %s" % hx(cn), "dl_coord_write 1 1 4 %d %s" % (dl(), nm()), "dl_coord_write 1 1 3 %d %s" % (dl(), nm(20))]
     s += ["sol_write 1 1 %s 2" % hx(b"Sol1"), "dl_sol_write 1 1 %d %s 2" % (dl(), nm()), "dl_sol_write 1 1 %d %s 3" % (dl(), nm(30))]
     s += ["section_write 1 2 %s 10 1 4 0" % hx(b"Elem" + b"x" * rng.choice([0, 3, 27, 28])), "section_write 1 2 %s 10 5 8 0" % nm()]
-    s += ["close", "open m", "nbases"]
+    s += ["field_write 1 1 1 4 %s 27" % hx(b"Fld1"), "1to1_write 1 1 %s %s" % (hx(b"I1"), hx(zn))]
+    s += ["close", "open m", "nbases", "field_id 1 1 1 1", "field_id 1 1 %d 1" % rng.choice([2, 3, 9]), "1to1_id 1 1 1", "1to1_id 1 2 1",
+          "goto 1 end 0", "state_write %s" % hx(C20.rand_bytes(rng, rng.choice([1, 31, 32, 80, 300]), 0.2)), "state_size", "goto 1 Zone_t 1", "state_size"]
     for B in (1, 2, 3, 4):
         s.append("base_read %d %d" % (B, probe_lens(rng, len(bn)) if B == 1 else o()))
     s += ["dl_base_read 1 %d" % dl(), "dl_base_read %d %d" % (rng.randint(1, 3), dl()), "nzones 1", "nzones 2"]
@@ -303,10 +305,9 @@ def gen_dlio_script(rng, stats):
 
 
 def c20_script(gen_name):
-    """a scenario generator of checks/C20.py (looked up at call time: C20.py may import this module), minus the operation
-    the Fortran side cannot even link (cg_state_size_f)"""
+    """a scenario generator of checks/C20.py, unchanged (looked up at call time: C20.py imports this module)"""
     def f(rng, stats):
-        return [l for l in getattr(C20, gen_name)(rng, stats) if l.split()[0] != "state_size"]
+        return list(getattr(C20, gen_name)(rng, stats))
     return f
 
 
@@ -347,28 +348,10 @@ def _name_field(line, tag):
 
 
 def known_divergence(op, F, ref):
-    """canonical keys of divergences that are genuine defects of cgns_f.F90 handed to the lead (notes/C20f.md)"""
-    t = (op or "").split()
-    if not t or F is None or ref is None:
-        return None
-    # C_F_string_chars / C_F_string_ptr (cgns_f.F90): `if (i<len(F_string)) F_string(i:) = ' '` leaves the LAST character of
-    # the caller's variable untouched when the C string is exactly one shorter than the variable
-    if t[0] in ("base_read", "zone_read", "coord_info", "family_read", "discrete_read", "array_info", "geo_read", "dl_base_read"):
-        fa, ra = re.findall(r" (\w+)=([0-9a-f]+|-)/oob:(\S+)", F), re.findall(r" (\w+)=([0-9a-f]+|-)/oob:(\S+)", ref)
-        if len(fa) == len(ra) and re.sub(r" \w+=([0-9a-f]+|-)/oob:\S+", "", F) == re.sub(r" \w+=([0-9a-f]+|-)/oob:\S+", "", ref):
-            hit = False
-            for (ft, fv, fo_), (rt, rv, ro) in zip(fa, ra):
-                if (ft, fo_) != (rt, ro):
-                    return None
-                if fv == rv:
-                    continue
-                # reference ends in exactly one blank after the value, the Fortran side kept the fill byte there
-                if len(fv) == len(rv) and fv[:-2] == rv[:-2] and rv[-2:] == "20" and fv[-2:] == "7e" and (len(rv) < 4 or rv[-4:-2] != "20"):
-                    hit = True
-                else:
-                    return None
-            if hit:
-                return "cgns_f.F90:C_F_string:last-character-not-blanked"
+    """canonical keys of divergences listed as `known:` in KNOWN_FINDINGS.txt.  None: the defect found while building
+    this layer (C_F_string_chars / C_F_string_ptr left the last character of the caller's variable unblanked when the C
+    string is one shorter than the variable) was repaired in /repo (40e726e); its witness is corpus/C20f/
+    cf_string_last_char.script and a regression is an ordinary VIOLATION."""
     return None
 
 
@@ -467,7 +450,7 @@ def corpus_scripts():
             for fn_ in sorted(os.listdir(d)):
                 if fn_.endswith(".script"):
                     ls = [l.strip() for l in open(os.path.join(d, fn_)) if l.strip() and not l.startswith("#")]
-                    out.append((sub + "/" + fn_, [l for l in ls if l.split()[0] != "state_size"]))
+                    out.append((sub + "/" + fn_, ls))
     return out
 
 
@@ -527,7 +510,7 @@ def run_extra(ck, standalone=False):
         viol({"broken_obligation": "forbidden tokens in the C20f Coq files", "hits": forb}, nofail=True)
     bad, err = coq_bad_rows(ck.work)
     ex["rows_failing_abi_ok"] = bad if bad is not None else "could not be evaluated: %s" % err
-    known_static = {"cg_bcdataset_info_f", "cg_field_id_f", "cg_1to1_id_f", "cg_state_size_f"}
+    known_static = {"cg_bcdataset_info_f"}
     new_bad = [b for b in (bad or []) if b not in known_static]
     ex["static_findings"] = [{"row": b, "listed_in": "FtocAbi.abi_known"} for b in (bad or []) if b in known_static]
 
